@@ -302,14 +302,61 @@ def atoms(test: ast.AST, truth: bool):
     yield e, truth
 
 
+def _bool_defs(cfg: CFG) -> dict:
+    """locals with exactly one definition whose value is a boolean expression (comparison, and/or/not, isinstance-like call):
+    a test on such a local stands for a test on its defining expression (`ok = x is None; if ok:`)"""
+    cached = getattr(cfg, "_bool_defs_cache", None)
+    if cached is not None:
+        return cached
+    counts: dict = {}
+    for n in ast.walk(cfg.fn):
+        if isinstance(n, ast.Assign):
+            for t in n.targets:
+                for x in ast.walk(t):
+                    if isinstance(x, ast.Name):
+                        counts.setdefault(x.id, []).append(n.value if (len(n.targets) == 1 and t is x) else None)
+        elif isinstance(n, (ast.AugAssign, ast.AnnAssign)) and isinstance(n.target, ast.Name):
+            counts.setdefault(n.target.id, []).append(getattr(n, "value", None) if isinstance(n, ast.AnnAssign) else None)
+        elif isinstance(n, (ast.For, ast.comprehension)):
+            for x in ast.walk(n.target):
+                if isinstance(x, ast.Name):
+                    counts.setdefault(x.id, []).append(None)
+        elif isinstance(n, ast.NamedExpr):
+            counts.setdefault(n.target.id, []).append(n.value)
+    a = cfg.fn.args
+    params = {x.arg for x in a.posonlyargs + a.args + a.kwonlyargs}
+    out = {}
+    for name, vals in counts.items():
+        if name in params or len(vals) != 1 or vals[0] is None:
+            continue
+        v = vals[0]
+        if isinstance(v, (ast.Compare, ast.BoolOp)) or (isinstance(v, ast.UnaryOp) and isinstance(v.op, ast.Not)) or \
+                (isinstance(v, ast.Call) and isinstance(v.func, ast.Name) and v.func.id in ("isinstance", "hasattr", "bool", "any", "all", "callable")):
+            out[name] = v
+    cfg._bool_defs_cache = out
+    return out
+
+
+def expanded_atoms(cfg: CFG, test: ast.AST, truth: bool, depth: int = 0):
+    """atoms(test, truth) with single-definition boolean locals replaced by the facts of their defining expression"""
+    defs = _bool_defs(cfg)
+    for a, t in atoms(test, truth):
+        yield a, t
+        if depth < 3 and isinstance(a, ast.Name) and a.id in defs:
+            yield from expanded_atoms(cfg, defs[a.id], t, depth + 1)
+        elif depth < 3 and isinstance(a, ast.Call) and isinstance(a.func, ast.Name) and a.func.id == "bool" and len(a.args) == 1:
+            yield from expanded_atoms(cfg, a.args[0], t, depth + 1)
+
+
 def edges_establishing(cfg: CFG, pred) -> list:
-    """(node, label) branch edges on which pred(atom, truth) holds for some atomic fact of that edge."""
+    """(node, label) branch edges on which pred(atom, truth) holds for some atomic fact of that edge (boolean locals with a
+    single definition are looked through)."""
     out = []
     for n in cfg.nodes:
         if n.kind != "test" or isinstance(getattr(n, "stmt", None), ast.Match):
             continue
         for label in (True, False):
-            if any(pred(a, t) for a, t in atoms(n.ast, label)):
+            if any(pred(a, t) for a, t in expanded_atoms(cfg, n.ast, label)):
                 out.append((n, label))
     return out
 
